@@ -663,6 +663,10 @@ impl ImageHandler for KittyImageHandler {
             ?img,
             "[KittyImageHandler.draw]"
         );
+        if img.is_empty() {
+            // nothing to transmit or show
+            return Ok(());
+        }
         let img_id = kitty_image_id(img);
 
         // q   - suppress response from the terminal 1 - OK only, 2 - All.
